@@ -615,6 +615,135 @@ def rule_stopflag(ctx, rep):
         rep.check(bool(allz), "C13.stop", fl + ".reset-exists", "the stop flag is reset for the next reclaimer incarnation", "defer_thread_stop is never reset: a reclaimer started later exits at once", [])
 
 
+def rule_ctrl(ctx, rep):
+    """Control skeleton of the defer machinery - which way each decision goes.  The reclaimer thread exits only on the stop flag and sleeps
+    only when no call is queued; its loop runs a barrier after every wait; the decoder walks while position != head; the barrier entry
+    points skip the grace period and the decoding only when nothing is queued (or nobody is registered); the reclaimer is started by the
+    first registration and stopped by the last unregistration; the re-check sums head - tail over the registered queues."""
+    for fl in ALL:
+        F, fn = _defer_fns(ctx, fl)
+        m = ctx.mod(F.lib, "perfn")
+
+        def g_(name):
+            x = m.fn(name)
+            if x is None:
+                c = [y for y in m.defined() if y.srcname == name]
+                x = c[0] if c else None
+            return x
+        # (a) wait_defer
+        w = g_("wait_defer")
+        if w is None:
+            raise Broken("%s: wait_defer vanished" % fl)
+        rep.touch(w)
+        ex = pat.calls_opt(w, "pthread_exit")
+        for c in ex:
+            lv = pat.dom_leaf_atoms(w, c)
+            pos = any(a[0] == "ne" and a[2] == ("c", 0) and a[1][0] == "load" and a[1][1] == "@defer_thread_stop" for a in lv)
+            neg = any(a[0] == "eq" and a[2] == ("c", 0) and a[1][0] == "load" and a[1][1] == "@defer_thread_stop" for a in lv)
+            if pos or neg:
+                rep.check(pos, "C13.ctrl", fl + ".wait_defer.exit-iff-stop", "the reclaimer thread exits only when the stop flag is set", "the reclaimer thread exits when the stop flag is *clear*: it dies at its first wait, queued calls are no longer run in the background "
+                          "(and a real stop request is ignored)", [c.where()])
+            else:
+                rep.unk("C13.ctrl", fl + ".wait_defer.exit-iff-stop", "pthread_exit in wait_defer is not guarded by the stop flag in a form this rule recognises")
+        nc = g_("rcu_defer_num_callbacks")
+        ws = waitloop.wait_sites(w)
+        if nc is not None and pat.calls_opt(w, nc.name):
+            for k, s_ in enumerate(ws):
+                lv = pat.dom_leaf_atoms(w, s_)
+                z = [a for a in lv if a[1][0] == "call" and a[1][1] == nc.name and a[2] == ("c", 0)]
+                if z:
+                    rep.check(all(a[0] == "eq" for a in z), "C13.ctrl", fl + ".wait_defer.sleeps-iff-empty", "the reclaimer sleeps only when the re-check found no queued call",
+                              "the reclaimer sleeps exactly when calls *are* queued (and spins when none is): calls queued before the announcement are run only when somebody queues another one", [s_.where()])
+                else:
+                    rep.unk("C13.ctrl", fl + ".wait_defer.sleeps-iff-empty", "the futex wait is not guarded by the re-check in a form this rule recognises")
+            # (b) the re-check sums head - tail
+            rep.touch(nc)
+            r = [x for x in nc.rets() if x.args]
+            e = ir.expr(nc, r[0].args[0], 8, through_phi=True) if r else None
+            has = e is not None and ir.expr_contains(e, lambda z: z[0] == "bin" and z[1] == "sub" and z[2][0] == "load" and z[2][1].endswith("defer_queue.head") and z[3][0] == "load" and z[3][1].endswith("defer_queue.tail"))
+            rep.check(has, "C13.ctrl", fl + ".num_callbacks.sums-head-tail", "the re-check returns the sum of head - tail over the registered queues",
+                      "the re-check returns %s: queued calls are not counted, the reclaimer sleeps on a non-empty queue" % (ir.expr_str(e)[:120] if e is not None else "nothing"), [nc.name])
+        # (c) decoder loop
+        d = g_("rcu_defer_barrier_queue")
+        rep.touch(d)
+        ics = [i for i in d.all_insts() if i.op == "icall"]
+        ed = pat.branch_edges_on(d, lambda a: len(a) == 3 and a[0] in ("eq", "ne") and a[1][0] == "phi" and a[2] == ("arg", 1))
+        if ed and ics:
+            for t, s_, a in ed:
+                into = d.reach([d.blocks[s_].insts[0]], ics, avoid=lambda i, t=t: i is t, include_start=True)[0] is not None
+                if into:
+                    rep.check(a[0] == "ne", "C13.ctrl", fl + ".decoder.walks-while-not-head", "the decoder processes entries while position != head",
+                              "the decoder enters its loop body when position == head and leaves at once otherwise: no queued call is ever invoked, yet tail is published", [t.where()])
+        else:
+            rep.unk("C13.ctrl", fl + ".decoder.walks-while-not-head", "decoder loop test not recognised")
+        # (d) _rcu_defer_barrier_thread: skip only when head == tail
+        bt = g_("_rcu_defer_barrier_thread")
+        if bt is not None:
+            rep.touch(bt)
+            bq = pat.calls_opt(bt, d.name)
+            isnum = lambda x: x[0] == "bin" and x[1] == "sub" and ir.expr_contains(x, lambda z: z[0] == "load" and z[1].endswith("defer_queue.head")) and ir.expr_contains(x, lambda z: z[0] == "load" and z[1].endswith("defer_queue.tail"))
+            okE = [(t.blk.id, s_) for t, s_, a in pat.branch_edges_on(bt, lambda a: (a[0] == "eq" and a[2] == ("c", 0) and isnum(a[1])) or (a[0] == "eq" and a[1][0] == "load" and a[2][0] == "load" and {a[1][1].split(".")[-1], a[2][1].split(".")[-1]} == {"head", "tail"}))]
+            if bq and okE:
+                rep.must_take_edge("C13.ctrl", fl + ".barrier_thread.skips-iff-empty", bt, [bt.entry()], list(bt.rets()), okE, include_start=True, avoid=lambda i: i in bq,
+                                   what="_rcu_defer_barrier_thread returns without decoding only when head == tail")
+            elif bq:
+                hit, _ = bt.reach([bt.entry()], list(bt.rets()), avoid=lambda i: i in bq, include_start=True)
+                if hit is not None:
+                    rep.bad("C13.ctrl", fl + ".barrier_thread.skips-iff-empty", "_rcu_defer_barrier_thread can return without decoding the queue on a condition other than head == tail: "
+                            "rcu_defer_barrier_thread() / unregister return with the thread's calls still queued", [hit.where()])
+                else:
+                    rep.ok("C13.ctrl", fl + ".barrier_thread.skips-iff-empty", "_rcu_defer_barrier_thread always decodes")
+        # (e) rcu_defer_barrier: skip only for an empty registry / no queued call
+        b = fn["barrier"]
+        pb = g_(b.name) or b
+        rep.touch(pb)
+        bq = pat.calls_opt(pb, d.name)
+        if bq:
+            def _ok(a):
+                if a[0] == "ne" and a[2] == ("c", 0) and a[1][0] == "call" and a[1][1].startswith("cds_list_empty"):
+                    return True
+                if a[0] == "eq" and a[2] == ("c", 0) and a[1][0] == "phi":
+                    e2 = ir.expr(pb, ["i", a[1][1]], 8, through_phi=True)
+                    return ir.expr_contains(e2, lambda z: z[0] == "load" and (z[1].endswith("defer_queue.head") or z[1].endswith("defer_queue.last_head")))
+                if a[0] == "eq" and a[1][0] == "load" and a[1][1].startswith("@registry_defer") and a[2][0] == "addr" and a[2][1] == "@registry_defer":
+                    return True      # inlined cds_list_empty
+                return False
+            okE = [(t.blk.id, s_) for t, s_, a in pat.branch_edges_on(pb, _ok)]
+            # the end of the *decoding* walk over the registry (the loop that contains the decoder call) is the regular way out
+            dec_loops = [c_ for c_ in pb.sccs() if any(x.blk.id in c_ for x in bq)]
+            okE += [(t.blk.id, s_) for t, s_, a in pat.branch_edges_on(pb, lambda a: a[0] == "eq" and a[2][0] == "addr" and a[2][1] == "@registry_defer") if any(t.blk.id in c_ for c_ in dec_loops)]
+            rep.must_take_edge("C13.ctrl", fl + ".barrier.skips-iff-nothing-queued", pb, [pb.entry()], list(pb.rets()), okE, include_start=True, avoid=lambda i: i in bq,
+                               what="rcu_defer_barrier returns without decoding only for an empty registry or when no call is queued")
+        # (f) reclaimer loop: a barrier after every wait
+        t_ = g_("thr_defer")
+        if t_ is not None:
+            rep.touch(t_)
+            wd = pat.calls_opt(t_, w.name)
+            br = pat.calls_opt(t_, pb.name)
+            if wd and br:
+                hit, _ = t_.reach(wd, wd, avoid=lambda i: i in br)
+                rep.check(hit is None, "C13.ctrl", fl + ".reclaimer.barrier-after-wait", "the reclaimer runs rcu_defer_barrier() after every wait", "the reclaimer can go round its loop without running the queued calls", [wd[0].where()])
+            else:
+                rep.bad("C13.ctrl", fl + ".reclaimer.barrier-after-wait", "the reclaimer loop does not %s" % ("wait" if not wd else "run rcu_defer_barrier(): queued calls are never executed in the background"), [t_.name])
+        # (g) first registration starts the reclaimer, last unregistration stops it
+        for key, callee, what in (("reg", "start_defer_thread", "started by the registration that found the registry empty"), ("unreg", "stop_defer_thread", "stopped by the unregistration that left the registry empty")):
+            g = g_(fn[key].name) or fn[key]
+            rep.touch(g)
+            cs = pat.calls_opt(g, callee)
+            if not cs:
+                continue        # C13.reg / C13.unreg report the missing call
+            lv = pat.dom_leaf_atoms(g, cs[0])
+            emp = [a for a in lv if (a[1][0] == "call" and a[1][1].startswith("cds_list_empty") and a[2] == ("c", 0)) or (a[1][0] == "load" and a[1][1].startswith("@registry_defer") and a[2][0] == "addr")]
+            if not emp:
+                rep.unk("C13.ctrl", "%s.%s" % (fl, callee), "%s is not guarded by the emptiness of the registry in a form this rule recognises" % callee)
+                continue
+            a = emp[0]
+            pos = (a[1][0] == "call" and a[0] == "ne") or (a[1][0] == "load" and a[0] == "eq")
+            rep.check(pos, "C13.ctrl", "%s.%s" % (fl, callee), "the reclaimer thread is " + what,
+                      "%s runs when the registry is *not* empty (and not when it is): %s" % (callee, "the first registered thread has no reclaimer - its queued calls run only on barrier / full queue; later registrations start a second reclaimer"
+                                                                                               if key == "reg" else "the reclaimer is stopped while other threads still rely on it, and keeps running after the last one left"), [cs[0].where()])
+
+
 def rule_tailmeaning(ctx, rep):
     """Writer / reader agreement on queue->tail.  The decoder publishes tail either after the batch's callbacks have run (tail == head then
     means `every queued call has finished`) or earlier (then it only means `slots reusable`).  The barrier entry points may decide to
@@ -655,6 +784,7 @@ META["explanation"] += " " + 'Also (rounds 10-11): stop flag and queue heads are
 
 RULES = [
     ("C13.tailmeaning", rule_tailmeaning),
+    ("C13.ctrl", rule_ctrl),
     ("C13.codec", rule_codec),
     ("C13.cap", rule_cap),
     ("C13.gp", rule_gp),
